@@ -275,20 +275,34 @@ print('not reproduced')
 '''
 
 
+class TableList(BaseList):
+    """the own tables of the ancestors, in lookup order (any number of them)"""
+    def elem_at(self, k):
+        return BaseList.elem_at(self, k)._attrs
+
+    def __reversed__(self):
+        return TableList(self.fam, not self.rev)
+
+    def __getitem__(self, k):
+        r = BaseList.__getitem__(self, k)
+        return TableList(r.fam, r.rev)
+
+
 @harness(['C06'], 'supp.name.ClassObject._attrs', twins=('spec-last-base-wins',))
 def class_attrs(run, twin=None):
-    """class table == the class's own body over the tables of its bases, an earlier base over a later one (any number of bases; with the
-    induction hypothesis that each base's table is its class_lookup this is class_lookup along the MRO, first definition wins).
-    Loop invariant: attrs == tables of the last k bases, earlier over later"""
+    """class table == the class's own body over the own tables of its ancestors in lookup order, an earlier one over a later one (any number
+    of ancestors): class_lookup along the MRO, first definition wins.  The lookup order itself is the contract of _ancestor_tables (harness
+    ancestor_order).  Loop invariant: attrs == the tables of the last k ancestors, earlier over later"""
     run.trust(T_PARAM)
     run.concretise = lambda model, ob: {'input': 'class D(Base) overriding a method', 'script': ATTR_REPLAY % {'repo': core.REPO}}
     fam = BaseFamily('bases', ['class'])
     own = Src(z3.Bool('own_body_has_k'), 'own class body')
-    f = loader.load('supp.name', 'ClassObject._attrs', cuts={0: chain_loopspec('attrs', fam, 'class', ('b',))}, displays={'dict': Overlay},
+    f = loader.load('supp.name', 'ClassObject._attrs', cuts={0: chain_loopspec('attrs', fam, 'class', ('table', 'b'))}, displays={'dict': Overlay},
                     stubs={'dict': lambda x=None: Overlay() if x is None else (x.copy() if isinstance(x, Proxy) else dict(x))})
 
     class Self(object):
         bases = BaseList(fam)
+        _ancestor_tables = TableList(fam)
         _cls_attrs = SrcTable(own)
 
     def body():
@@ -306,6 +320,77 @@ def class_attrs(run, twin=None):
         prove('own-body-first-then-bases-in-order', eq if eq is not None else False,
               clause='class_lookup: the class\'s own definition, else the first base (in order) that has one', path=p)
     core.explore(body, on_path)
+
+
+@harness(['C06'], 'supp.name.ClassObject._ancestor_tables')
+def ancestor_order(run):
+    """the tables attributes are inherited from come in the order of the class's MRO as CPython computes it (C3): for every hierarchy of up
+    to 5 source classes over `object` (every assignment of bases that CPython accepts), built both as real classes and as supp ClassObjects"""
+    import itertools
+    import supp.name as Nm
+
+    def go(path):
+        names = ['A', 'B', 'C', 'D', 'E']
+        checked = 0
+        # class i may inherit from any ordered selection of up to 2 earlier classes, optionally with an explicit object at the end
+        options = {}
+        for i, n in enumerate(names):
+            earlier = names[:i]
+            opts = [()]
+            for r in (1, 2):
+                opts += list(itertools.permutations(earlier, r))
+            opts += [o + ('object',) for o in list(opts)]
+            options[n] = opts
+        import random
+        rnd = random.Random(1234)
+        combos = []
+        for n_cls in (2, 3, 4):
+            all_c = list(itertools.product(*[options[n] for n in names[:n_cls]]))
+            combos += all_c if len(all_c) <= 1500 else rnd.sample(all_c, 1500)
+        all5 = [tuple(rnd.choice(options[n]) for n in names) for _ in range(800)]
+        bad = None
+        for combo in combos + all5:
+            real = {'object': object}
+            ok = True
+            for n, bases in zip(names, combo):
+                try:
+                    real[n] = type(n, tuple(real[b] for b in bases), {})
+                except TypeError:
+                    ok = False          # CPython refuses the hierarchy (no consistent MRO / duplicate base)
+                    break
+            if not ok:
+                continue
+            # the same hierarchy as supp objects
+            objs = {}
+            runtime_object = Nm.RuntimeName('object', object)
+
+            class CO(Nm.ClassObject):
+                # the class body's own table is given; everything else is the real ClassObject
+                _cls_attrs = property(lambda self: self._own)
+
+            def mk(n, bases):
+                o = loader.bare_instance(CO)
+                o.scope = ('scope-of', n)
+                o._own = {'table-of': n}
+                o.__dict__['bases'] = [objs[b] if b != 'object' else Nm.RuntimeName('object', object) for b in bases]
+                return o
+            for n, bases in zip(names, combo):
+                objs[n] = mk(n, bases)
+            top = names[len(combo) - 1]
+            got = []
+            for t in objs[top]._ancestor_tables:
+                got.append(t.get('table-of', 'object') if 'table-of' in t else 'object')
+            want = [c.__name__ for c in real[top].__mro__[1:] if c is not object or any('object' in b for b in combo)]
+            if 'object' in want and 'object' not in got:
+                want = [w for w in want if w != 'object']
+            checked += 1
+            if got != want and bad is None:
+                bad = (combo, got, want)
+        prove('ancestors-in-mro-order', bad is None,
+              clause='%d hierarchies: the ancestors\' tables come in the order of type.__mro__ [first difference: bases %r give %r, CPython %r]' % (
+                  (checked,) + (bad or (None, None, None))), path=path)
+        prove('hierarchies-checked', checked > 1000, kind='lemma', path=path)
+    core.explore(lambda: None, lambda p, out: go(p))
 
 
 @harness(['C06'], 'supp.name.InstanceValue._attrs / _assigned_attrs', twins=('spec-class-table-over-assignments',))
